@@ -1252,6 +1252,14 @@ EVAL = {'parser': eval_parser, 'server': eval_server, 'client': eval_client, 're
         'webclient': _webclient, 'weburl': _webclient}
 
 
+def _pipe(ctx, cases):
+    import c13_pipe
+    return c13_pipe.eval_pipe(ctx, cases)
+
+
+EVAL['pipe'] = _pipe
+
+
 def params(ctx):
     from circuits.web.constants import SERVER_PROTOCOL
     ctx.param('SERVER_PROTOCOL major is 1 (model: 505 iff request major != 1)', tuple(SERVER_PROTOCOL)[0] == 1,
@@ -1306,6 +1314,8 @@ def run(ctx):
                 return
     import c13_client
     c13_client.run(ctx)
+    import c13_pipe
+    c13_pipe.run(ctx)
 
 
 def search(ctx):
